@@ -51,3 +51,15 @@ package project
 // leave the caller-visible heap and the emission counters alone.
 //@ func project.encodeValue
 //@   trusted
+
+// ---------------------------------------------------------------- C10: a loaded configuration exists
+// Loading returns a configuration whenever it reports success.
+//@ func project.LoadConfigBytes
+//@   ensures config-or-error: result.1 == nil ==> result.0 != nil
+//@   modifies heap
+//@   loop 0: invariant errors-are-errors: forall j: int :: 0 <= j && j < len(errs) ==> errs[j] != nil
+//@ func project.LoadConfigFile
+//@   ensures config-or-error: result.1 == nil ==> result.0 != nil
+//@   modifies heap
+// CleanPath only computes a string.
+//@ func project.CleanPath
